@@ -645,6 +645,17 @@ impl<S: Sut> World<S> {
                 }
             }
         }
+        // a context derived for *any* actor carries the dot right after what the read has seen of that actor
+        for a in [0u8, 1, 2, 3, 200] {
+            if let Some((dot, cclk, rclk)) = self.reps[r].next_dot(a) {
+                self.st.ev("ctx_derive_any");
+                let mut exp = rclk.clone();
+                cjoin(&mut exp, dot);
+                if dot != (a, cget(&rclk, a) + 1) || cclk != exp {
+                    return Err(self.v("ctx", k, format!("r{r}: derive_add_ctx({a}) from add_clock {rclk:?} gave dot {dot:?} and clock {cclk:?}")));
+                }
+            }
+        }
         // a context derived now for the replica's own actor must carry its next unused dot
         if let Some(me) = self.actors.get(r).cloned().flatten() {
             if let Some((dot, cclk, rclk)) = self.reps[r].next_dot(me) {
